@@ -806,7 +806,8 @@ fn ipc_batch(sid: usize, r: &mut Rng, rows: usize) -> RecordBatch {
     }
 }
 /// a stream written by the real StreamWriter; returns (bytes, tag)
-fn ipc_stream(r: &mut Rng, with_eos: bool) -> (Vec<u8>, String) {
+fn ipc_stream(r: &mut Rng, with_eos: bool) -> (Vec<u8>, String) { let (b, t, _) = ipc_stream_c(r, with_eos); (b, t) }
+fn ipc_stream_c(r: &mut Rng, with_eos: bool) -> (Vec<u8>, String, bool) {
     use arrow_ipc::writer::{IpcWriteOptions, StreamWriter};
     use arrow_ipc::MetadataVersion;
     let sid = r.below(7);
@@ -832,7 +833,7 @@ fn ipc_stream(r: &mut Rng, with_eos: bool) -> (Vec<u8>, String) {
     if !with_eos {
         // into_inner() without finish(): the stream simply ends after the last message
     }
-    (buf, format!("s{sid} b{nb} l{} a{align} c{}", legacy as u8, comp.is_some() as u8))
+    (buf, format!("s{sid} b{nb} l{} a{align} c{}", legacy as u8, comp.is_some() as u8), comp.is_some())
 }
 
 fn put_all(emit: &mut dyn FnMut(Case), r: &mut Rng, tier: &str, fmt: i64, cfg: i64, bs: usize, variants: &[i64], input: &[u8], tag: &str, exhaustive_small: bool) {
@@ -1006,8 +1007,11 @@ fn gen_avro_model(tier: &str, r: &mut Rng, emit: &mut dyn FnMut(Case), count: us
 fn gen_ipc(tier: &str, r: &mut Rng, emit: &mut dyn FnMut(Case), count: usize) {
     for i in 0..count {
         let with_eos = !r.chance(1, 5);
-        let (mut bytes, tag) = ipc_stream(r, with_eos);
-        let kind = if i < 4 { 0 } else { r.below(8) };
+        let (mut bytes, tag, compressed) = ipc_stream_c(r, with_eos);
+        // body bytes of compressed streams are never corrupted: the 8-byte uncompressed-length prefix
+        // of a compressed buffer is trusted by arrow-ipc (decompress_to_buffer allocates it: a flipped
+        // high bit aborts the process with an allocation failure - out of scope here, see report)
+        let kind = if i < 4 { 0 } else { let k = r.below(8); if k == 7 && compressed { 0 } else { k } };
         // KNOWN-FINDING candidate (arrow-ipc/src/reader/stream.rs:160,210): a message whose bodyLength
         // is 0 (the schema, a batch without buffers) is only processed when the NEXT bytes arrive
         // (`while !buffer.is_empty()`), so a stream that ends without the optional EOS marker right
